@@ -25,14 +25,23 @@ pub struct World {
 
 thread_local! {
     static WORLD: RefCell<Option<World>> = const { RefCell::new(None) };
+    static USES: std::cell::Cell<usize> = const { std::cell::Cell::new(0) };
 }
+
+/// A world is thrown away after this many cases: tunnels are never torn down end to end (known
+/// finding C08.P1), so every conversation leaves sockets behind in the world's process.
+const WORLD_LIFETIME: usize = 250;
 
 fn build() -> Result<World, Fail> {
     let rt = tokio::runtime::Builder::new_multi_thread().worker_threads(2).enable_all().build().map_err(|e| infra(format!("runtime: {e}")))?;
     let parts = rt.block_on(async {
         let scheme = anytls_rs::padding::DEFAULT_PADDING_SCHEME;
         let server = start_real_server(scheme).await?;
-        let client = real_client(server, scheme, SessionPoolConfig::default())?;
+        // Pool housekeeping must stay out of the shared world: with the default 30 s / 60 s settings
+        // the reaper closes sessions that carry live streams (known finding C12.inuse), which would
+        // fail unrelated requests of long runs. Families about the pool build their own client.
+        let quiet = SessionPoolConfig { check_interval: Duration::from_secs(3600), idle_timeout: Duration::from_secs(7200), min_idle_sessions: 1 };
+        let client = real_client(server, scheme, quiet)?;
         let socks = start_socks5(client.clone()).await?;
         let http = start_http(client.clone()).await?;
         let echo_a = TcpTarget::start(IpAddr::V4(worker_ip()), TargetMode::Echo).await?;
@@ -48,6 +57,13 @@ fn build() -> Result<World, Fail> {
 
 /// Run `f` against this worker's world (built on first use).
 pub fn with_world<T>(f: impl FnOnce(&World) -> Result<T, Fail>) -> Result<T, Fail> {
+    let n = USES.with(|u| {
+        u.set(u.get() + 1);
+        u.get()
+    });
+    if n % WORLD_LIFETIME == 0 {
+        reset_world();
+    }
     WORLD.with(|w| {
         let mut g = w.borrow_mut();
         if g.is_none() {
